@@ -127,7 +127,7 @@ CLAIMED = {
    text="TLC enumerates every history of calls (12 operation classes) and caller writes through held results over the buffer model "
         "(GBMemory: 4 caller inputs, logical codes/labels, 4 lazily filled caches with their fill order and sources; invariants "
         "InputsIntact, GroupingIntact, Repeatable, CachesIntact; 4 negative configurations).  Real histories on one grouping object "
-        "(one replay per transition of TLC's dumped state graph, ordered pairs of the 54 concrete methods with a write through the "
+        "(one replay per transition of TLC's dumped state graph, ordered pairs of the 56 concrete methods with a write through the "
         "first result in between, every method x 15 value containers x 5 mask kinds, random walks) are validated step by step: "
         "byte-level snapshots of every input, logical codes/labels and every filled cache against a fresh grouping on pristine "
         "inputs, np.shares_memory between result and every buffer, bit-exact equality of each result with the fresh grouping's.",
